@@ -16,16 +16,21 @@ from visions.types.date_time import DateTime
 def datetime_is_date(series: pd.Series, state: dict) -> bool:
     # compare the wall-clock components at the resolution of the data: `.dt.time` has microsecond
     # resolution and hides nanoseconds (and `.dt.normalize()` raises where local midnight does not exist)
-    dt = series.dt
-    return bool(
-        (
+    try:
+        dt = series.dt
+        # datetime.date covers the years 1 .. 9999 only (non-nanosecond units reach further)
+        in_range = ((dt.year >= 1) & (dt.year <= 9999)).all()
+        midnight = (
             (dt.hour == 0)
             & (dt.minute == 0)
             & (dt.second == 0)
             & (dt.microsecond == 0)
             & (dt.nanosecond == 0)
         ).all()
-    )
+    except (AttributeError, TypeError, NotImplementedError):
+        # no datetime components to look at (sparse values, arrow date types)
+        return False
+    return bool(in_range and midnight)
 
 
 @Date.register_transformer(DateTime, pd.Series)
